@@ -841,6 +841,9 @@ def account(agg, c, plan):
     vcls = sig_key(signature(c["v"])) if c["v"] else "-"
     agg["digest_full"] ^= int(core.sha256_hex(repr((c["i"], c["h"], c["o"], c.get("s"), vcls, c.get("st"))).encode())[:16], 16)
     agg["digest_verdict"] ^= int(core.sha256_hex(repr((c["i"], c["h"], c["o"], vcls)).encode())[:16], 16)
+    if os.environ.get("XDIS_VERIF_DUMP_VERDICTS"):
+        with open(os.environ["XDIS_VERIF_DUMP_VERDICTS"], "a") as _f:
+            _f.write("%r\n" % ((c["i"], c["h"], c["o"], vcls),))
     agg["bytes"] += c["n"]
     o = c["o"]
     agg["outcomes"][o] = agg["outcomes"].get(o, 0) + 1
